@@ -63,6 +63,74 @@ func wideOne(l *mc.Local, c wideCase) {
 			if d := lightMatrix(r, m); d != "" {
 				bad("after Rotate180 and FlipAll: " + d)
 			}
+		case "BitMatrix.Tall/w=3", "BitMatrix.Tall/w=33":
+			// Size is the HEIGHT here; the region covers rows [Start, Stop) and columns 1..w-2
+			w := 3
+			if c.What == "BitMatrix.Tall/w=33" {
+				w = 33
+			}
+			h := c.Size
+			r, _ := gozxing.NewBitMatrix(w, h)
+			m := &mmodel{w, h, make([]bool, w*h)}
+			if e := r.SetRegion(1, c.Start, w-2, c.Stop-c.Start); e != nil {
+				bad("refused: " + e.Error())
+				return
+			}
+			for y := c.Start; y < c.Stop; y++ {
+				for x := 1; x < w-1; x++ {
+					m.b[y*w+x] = true
+				}
+			}
+			if d := lightMatrix(r, m); d != "" {
+				bad(d)
+				return
+			}
+			if er := r.GetEnclosingRectangle(); len(er) != 4 || er[0] != 1 || er[1] != c.Start || er[2] != w-2 || er[3] != c.Stop-c.Start {
+				bad(fmt.Sprint("GetEnclosingRectangle = ", er))
+				return
+			}
+			if tl := r.GetTopLeftOnBit(); len(tl) != 2 || tl[0] != 1 || tl[1] != c.Start {
+				bad(fmt.Sprint("GetTopLeftOnBit = ", tl))
+				return
+			}
+			if br := r.GetBottomRightOnBit(); len(br) != 2 || br[0] != w-2 || br[1] != c.Stop-1 {
+				bad(fmt.Sprint("GetBottomRightOnBit = ", br))
+				return
+			}
+			for _, y := range []int{c.Start, c.Stop - 1, h - 1} {
+				row := r.GetRow(y, nil)
+				for x := 0; x < w; x++ {
+					if row.Get(x) != m.b[y*w+x] {
+						bad(fmt.Sprintf("GetRow(%d)[%d] = %v", y, x, row.Get(x)))
+						return
+					}
+				}
+			}
+			r.Rotate180()
+			rot := &mmodel{w, h, make([]bool, w*h)}
+			for y := 0; y < h; y++ {
+				for x := 0; x < w; x++ {
+					rot.b[(h-1-y)*w+(w-1-x)] = m.b[y*w+x]
+				}
+			}
+			if d := lightMatrix(r, rot); d != "" {
+				bad("after Rotate180: " + d)
+				return
+			}
+			r.Rotate90() // counter-clockwise: the matrix becomes h wide and w tall
+			if r.GetWidth() != h || r.GetHeight() != w {
+				bad(fmt.Sprintf("after Rotate90 the matrix is %dx%d", r.GetWidth(), r.GetHeight()))
+				return
+			}
+			for y := 0; y < h; y += 1 + h/997 {
+				for x := 0; x < w; x++ {
+					// new(x', y') = old(y', h... ) : Rotate90 maps old (x, y) to (y, w-1-x)
+					if r.Get(y, w-1-x) != rot.b[y*w+x] {
+						bad(fmt.Sprintf("after Rotate90: cell (%d,%d) differs", y, w-1-x))
+						return
+					}
+				}
+			}
 		case "BitArray.SetRange":
 			r := gozxing.NewBitArray(c.Size)
 			m := &amodel{make([]bool, c.Size)}
@@ -164,8 +232,25 @@ func runWide() {
 			}
 		}
 	}
+	// tall matrices: more than 2^16 ROWS (a row index or a word offset divided by the row size)
+	for _, h := range []int{65535, 65536, 65537, 70000, 131073} {
+		marks := []int{0, 1, 255, 256, 32767, 32768, 65534, 65535, 65536, h / 2, h - 2, h - 1, h}
+		for _, what := range []string{"BitMatrix.Tall/w=3", "BitMatrix.Tall/w=33"} {
+			for _, a := range marks {
+				for _, b := range marks {
+					if a < 0 || b > h || a >= b {
+						continue
+					}
+					if (a+b+h)%3 != 0 && b-a > 2 && b-a < h/2 {
+						continue
+					}
+					cases = append(cases, wideCase{"wide", what, h, a, b})
+				}
+			}
+		}
+	}
 	const chunk = 8
-	chk.Range(fmt.Sprintf("very wide / long containers: sizes %v x ranges starting and ending at word and block boundaries (0, 1, 31..33, 8191..8193, 8224, 65535..65537, middle, size-33..size) x {SetRegion + GetEnclosingRectangle + Rotate180 + FlipAll, SetRange + IsRange + GetNextSet/Unset + Reverse + Xor, AppendBitArray} [%d cases]", sizes, len(cases)), (len(cases)+chunk-1)/chunk,
+	chk.Range(fmt.Sprintf("very wide / long containers (and matrices of 65535..131073 ROWS, 3 and 33 wide: region + enclosing rectangle + corner bits + GetRow + Rotate180 + Rotate90): sizes %v x ranges starting and ending at word and block boundaries (0, 1, 31..33, 8191..8193, 8224, 65535..65537, middle, size-33..size) x {SetRegion + GetEnclosingRectangle + Rotate180 + FlipAll, SetRange + IsRange + GetNextSet/Unset + Reverse + Xor, AppendBitArray} [%d cases]", sizes, len(cases)), (len(cases)+chunk-1)/chunk,
 		func(i int) string { return fmt.Sprintf("%+v", cases[i*chunk]) },
 		func(l *mc.Local, i int) {
 			for k := i * chunk; k < (i+1)*chunk && k < len(cases); k++ {
